@@ -14,6 +14,7 @@ import (
 	"fmt"
 	"github.com/evergreen-ci/birch"
 	"io"
+	"sort"
 	"strings"
 	"time"
 
@@ -371,6 +372,27 @@ type bsonMarshalerForm struct{ b []byte }
 
 func (d bsonMarshalerForm) MarshalBSON() ([]byte, error) { return d.b, nil }
 
+// mapForm: a flat document of int64 fields with distinct names, as the map[string]int64 the library also accepts,
+// and the document it stands for (fields in ascending order of their names)
+func mapForm(d []elem) (map[string]int64, []elem, bool) {
+	m := map[string]int64{}
+	for _, e := range d {
+		if e.V == nil || e.V.T != 0x12 {
+			return nil, nil, false
+		}
+		if _, dup := m[e.K]; dup {
+			return nil, nil, false
+		}
+		m[e.K] = e.V.I
+	}
+	if len(m) == 0 {
+		return nil, nil, false
+	}
+	sorted := append([]elem{}, d...)
+	sort.SliceStable(sorted, func(i, j int) bool { return sorted[i].K < sorted[j].K })
+	return m, sorted, true
+}
+
 func addForm(b []byte, k int, wrapper string) interface{} {
 	if wrapper == "wcoll" {
 		return b // Write takes bytes
@@ -533,9 +555,16 @@ func runHistory(o *out, id int, c hcase) {
 				err = coll.Add(h.raw)
 				o.printf("B %s => %s\n", hex.EncodeToString(h.raw), addClass(err))
 			} else {
-				err = coll.Add(addForm(encDoc(h.doc), nadd, c.wrapper))
-				nadd++
-				o.printf("A %s => %s\n", hexDoc(h.doc), addClass(err))
+				if m, sorted, ok := mapForm(h.doc); ok && nadd%5 == 4 && c.wrapper != "wcoll" {
+					// a map of int64 values: the library sorts the fields by name, which is the document it was given
+					err = coll.Add(m)
+					nadd++
+					o.printf("A %s => %s\n", hexDoc(sorted), addClass(err))
+				} else {
+					err = coll.Add(addForm(encDoc(h.doc), nadd, c.wrapper))
+					nadd++
+					o.printf("A %s => %s\n", hexDoc(h.doc), addClass(err))
+				}
 			}
 		case 'R':
 			p, err := coll.Resolve()
